@@ -5,10 +5,13 @@
    them; one scheduler step = the chosen thread performs its pending visible action and runs
    on to its next one.  The critical sections are the group operations of CLModel (g_alloc,
    g_link_back, g_link_front, g_link_before, g_unlink) — the very functions the sequential
-   proofs are about.  Counters are drawn BEFORE the mutex is taken, as in the header.
+   proofs are about, packaged as CLSec.sec_step; every executed section is recorded in the ghost
+   lsecs (CLConcProj.v: the list is the replay of that record).  Counters are drawn BEFORE the
+   mutex is taken, as in the header.
    Definitions only. *)
 From Coq Require Import List Arith NArith ZArith Bool.
 From EV Require Import CLModel.
+From EV Require Export CLSec.
 From EV.gen Require GenCL.
 Import ListNotations.
 Local Open Scope nat_scope.
@@ -27,7 +30,8 @@ Record lshared := mkLS {
   lcc : N;                      (* currentCounter *)
   lown : option nat;            (* owner of the list's mutex *)
   lregs : list (nat * option nat);   (* shared handle registers: node id or empty *)
-  llog : list lact
+  llog : list lact;
+  lsecs : list (nat * sec * bool)    (* ghost: the critical sections executed so far (thread, section, result), newest first *)
 }.
 
 Record llocals := mkLL {
@@ -48,11 +52,12 @@ Inductive linstr :=
 | JLoop                           (* the while(node) loop of doForEachIf; mode in the thread *)
 | JRes | JDone.
 
-Definition ls_grp s v := mkLS v (lcc s) (lown s) (lregs s) (llog s).
-Definition ls_cc s v := mkLS (lgrp s) v (lown s) (lregs s) (llog s).
-Definition ls_own s v := mkLS (lgrp s) (lcc s) v (lregs s) (llog s).
-Definition ls_reg s h v := mkLS (lgrp s) (lcc s) (lown s) ((h, v) :: lregs s) (llog s).
-Definition ls_log s e := mkLS (lgrp s) (lcc s) (lown s) (lregs s) (e :: llog s).
+Definition ls_grp s v := mkLS v (lcc s) (lown s) (lregs s) (llog s) (lsecs s).
+Definition ls_cc s v := mkLS (lgrp s) v (lown s) (lregs s) (llog s) (lsecs s).
+Definition ls_own s v := mkLS (lgrp s) (lcc s) v (lregs s) (llog s) (lsecs s).
+Definition ls_reg s h v := mkLS (lgrp s) (lcc s) (lown s) ((h, v) :: lregs s) (llog s) (lsecs s).
+Definition ls_log s e := mkLS (lgrp s) (lcc s) (lown s) (lregs s) (e :: llog s) (lsecs s).
+Definition ls_sec s e := mkLS (lgrp s) (lcc s) (lown s) (lregs s) (llog s) (e :: lsecs s).
 
 Definition reg_of (s : lshared) (h : nat) : option nat :=
   match lookup h (lregs s) with Some v => v | None => None end.
@@ -62,77 +67,38 @@ Definition node_of (s : lshared) (n : nat) : option node := nth_error (heap (lgr
 Definition W32 : N := 4294967296.
 
   (* getNextCounter(): ++currentCounter (the wrap branch is C19's business: excluded here) *)
-  Definition draw : list linstr :=
-    [JInc; JLocal false (fun _ s l => (s, mkLL (ln l) (lcc s) (lbefore l) (lcur l) (lcapt l) (lresb l)))].
+  Definition draw : list linstr := [JInc].      (* the new value is this thread's counter (lk): lperform *)
 
-  Definition alloc (c : nat) : linstr :=
-    JLocal false (fun _ s l => let '(g1, n) := g_alloc (lgrp s) c (lk l) in
-                              (ls_grp s g1, mkLL (Some n) (lk l) (lbefore l) (lcur l) (lcapt l) (lresb l))).
+  (* a critical section: CLSec.sec_step on the list, recorded in the ghost lsecs.  For the adding calls the node is
+     created here: in the header `doAllocateNode` runs before the lock_guard, but it touches nothing shared — the index a
+     node gets in the model's heap is an artefact that no trace shows — so the model numbers the node when it is linked.
+     The counter is still drawn before the mutex is taken (draw, above). *)
+  Definition do_sec (locked : bool) (x : lshared -> llocals -> sec) : linstr :=
+    JLocal locked (fun t s l =>
+                     let sc := x s l in
+                     let '(g1, b) := sec_step (lgrp s) sc in
+                     (ls_sec (ls_grp s g1) (t, sc, b),
+                      mkLL (if adds sc then Some (length (heap (lgrp s))) else ln l) (lk l) (lbefore l) (lcur l) (lcapt l)
+                           (if adds sc then lresb l else b))).
 
   Definition lcode_of (c : lapi) : list linstr :=
     match c with
     | LAppend cb h =>
-        draw ++ [alloc cb; JLock;
-                 JLocal true (fun _ s l => match ln l with Some n => (ls_grp s (g_link_back (lgrp s) n), l) | None => (s, l) end);
-                 JUnlock;
+        draw ++ [JLock; do_sec true (fun _ l => SBack cb (lk l)); JUnlock;
                  JLocal false (fun _ s l => (ls_reg s h (ln l), l)); JDone]
     | LPrepend cb h =>
-        draw ++ [alloc cb; JLock;
-                 JLocal true (fun _ s l => match ln l with Some n => (ls_grp s (g_link_front (lgrp s) n), l) | None => (s, l) end);
-                 JUnlock;
+        draw ++ [JLock; do_sec true (fun _ l => SFront cb (lk l)); JUnlock;
                  JLocal false (fun _ s l => (ls_reg s h (ln l), l)); JDone]
     | LInsert cb hb h =>
         (* NodePtr beforeNode = before.lock(): any node the handle still refers to (live or removed-but-alive);
            an empty handle gives null.  Both paths draw a counter, allocate and take the mutex once. *)
         [JLocal false (fun _ s l => (s, mkLL (ln l) (lk l) (reg_of s hb) (lcur l) (lcapt l) (lresb l)))]
         ++ draw ++
-        [alloc cb; JLock;
-         JLocal true (fun _ s l =>
-                        match ln l with
-                        | None => (s, l)
-                        | Some n =>
-                            match lbefore l with
-                            | Some b =>
-                                match node_of s b with
-                                | Some bn => if negb (N.eqb (ctr bn) GenCL.removed_marker)
-                                             then (ls_grp s (g_link_before (lgrp s) n b), l)
-                                             else (ls_grp s (g_link_back (lgrp s) n), l)
-                                | None => (ls_grp s (g_link_back (lgrp s) n), l)
-                                end
-                            | None => (ls_grp s (g_link_back (lgrp s) n), l)
-                            end
-                        end);
-         JUnlock;
+        [JLock; do_sec true (fun _ l => SBefore cb (lk l) (lbefore l)); JUnlock;
          JLocal false (fun _ s l => (ls_reg s h (ln l), l)); JDone]
-    | LRemove h =>
-        [JLock;
-         JLocal true (fun _ s l =>
-                        match reg_of s h with
-                        | Some x =>
-                            match node_of s x with
-                            | Some xn => if negb (N.eqb (ctr xn) GenCL.removed_marker)
-                                         then (ls_grp s (g_unlink (lgrp s) x), mkLL (ln l) (lk l) (lbefore l) (lcur l) (lcapt l) true)
-                                         else (s, mkLL (ln l) (lk l) (lbefore l) (lcur l) (lcapt l) false)
-                            | None => (s, mkLL (ln l) (lk l) (lbefore l) (lcur l) (lcapt l) false)
-                            end
-                        | None => (s, mkLL (ln l) (lk l) (lbefore l) (lcur l) (lcapt l) false)
-                        end);
-         JUnlock; JRes]
-    | LOwns h =>
-        [JLock;
-         JLocal true (fun _ s l =>
-                        let r := match reg_of s h with
-                                 | Some x => match node_of s x with
-                                             | Some xn => negb (N.eqb (ctr xn) GenCL.removed_marker)
-                                             | None => false
-                                             end
-                                 | None => false
-                                 end in
-                        (s, mkLL (ln l) (lk l) (lbefore l) (lcur l) (lcapt l) r));
-         JUnlock; JRes]
-    | LEmpty =>
-        [JLocal false (fun _ s l => (s, mkLL (ln l) (lk l) (lbefore l) (lcur l) (lcapt l)
-                                             (match ghead (lgrp s) with Some _ => false | None => true end))); JRes]
+    | LRemove h => [JLock; do_sec true (fun s _ => SRemove (reg_of s h)); JUnlock; JRes]
+    | LOwns h => [JLock; do_sec true (fun s _ => SOwns (reg_of s h)); JUnlock; JRes]
+    | LEmpty => [do_sec false (fun _ _ => SEmpty); JRes]
     | LInvoke _ | LForEach =>
         [JLock; JLocal true (fun _ s l => (s, mkLL (ln l) (lk l) (lbefore l) (ghead (lgrp s)) (lcapt l) (lresb l))); JUnlock;
          JLoad; JLoop; JDone]
@@ -218,7 +184,9 @@ Definition lperform (t : nat) (s : lshared) (ths : list lthread) : lshared * lis
             match i with
             | JLock => (ls_own (ls_log s (LaLock t)) (Some t), th1)
             | JUnlock => (ls_own (ls_log s (LaUnlock t)) None, th1)
-            | JInc => let v := ((lcc s + 1) mod W32)%N in (ls_log (ls_cc s v) (LaInc t v), th1)
+            | JInc => let v := ((lcc s + 1) mod W32)%N in
+                      (ls_log (ls_cc s v) (LaInc t v),
+                       mkLT rest (lcalls th) (mkLL (ln (lloc th)) v (lbefore (lloc th)) (lcur (lloc th)) (lcapt (lloc th)) (lresb (lloc th))) false (lmode th))
             | JLoad => (ls_log s (LaLoad t (lcc s)),
                         mkLT rest (lcalls th) (mkLL (ln (lloc th)) (lk (lloc th)) (lbefore (lloc th)) (lcur (lloc th)) (lcc s) (lresb (lloc th))) false (lmode th))
             | JStart => (s, th1)
@@ -242,21 +210,22 @@ Fixpoint lnext (s : lshared) (ths : list lthread) (sch : list nat) : option nat 
               end
   end.
 
-Fixpoint lrun (fuel : nat) (s : lshared) (ths : list lthread) (sch : list nat) : lshared :=
+Fixpoint lrun (fuel : nat) (s : lshared) (ths : list lthread) (sch : list nat) : lshared * list lthread :=
   match fuel with
-  | 0 => s
+  | 0 => (s, ths)
   | S f =>
       let '(pick, rest) := lnext s ths sch in
       match (match pick with Some t => Some t | None => lfirst ths 0 (lenabled s) end) with
       | Some t => let '(s1, ths1) := lperform t s ths in lrun f s1 ths1 rest
-      | None => if forallb lfin ths then s else ls_log s LaDeadlock
+      | None => if forallb lfin ths then (s, ths) else (ls_log s LaDeadlock, ths)
       end
   end.
 
+Definition ls0 : lshared := mkLS empty_group 0 None [] [] [].
+Definition lstart (progs : list (list lapi)) : list lthread := map (fun p => mkLT [JStart] p ll0 false None) progs.
+
 Definition lc_run_case (fuel : nat) (progs : list (list lapi)) (schedule : list nat) : list lact * list nat :=
-  let s0 := mkLS empty_group 0 None [] [] in
-  let ths := map (fun p => mkLT [JStart] p ll0 false None) progs in
-  let s := lrun fuel s0 ths schedule in
+  let s := fst (lrun fuel ls0 (lstart progs) schedule) in
   (rev (llog s),
    (* the final list content: callback ids from head through next *)
    (fix walk (k : nat) (c : option nat) : list nat :=
